@@ -13,8 +13,8 @@ PROP = {
     "level_text": "tbd",
     "level_note": "tbd",
     "tests": [
-        ("TestVFC13Valid", (600, 4000)),
-        ("TestVFC13Shape", (1500, 10000)),
+        ("TestVFC13Valid", (300, 2500)),
+        ("TestVFC13Shape", (700, 6000)),
         ("TestVFC13Bytes", (1500, 10000)),
         ("TestVFC13Auth", (30, 100), {"shards": (1, 8)}),
     ],
